@@ -64,8 +64,12 @@ def run(ctx):
         res.check(bool(sc) and all(c.args and norm(c.args[0]) == "seed" for c in sc), "R-SEEDED", cfp.fi.short, norm(sc[0]) if sc else "self._set_seed(seed)", "set", "the generator is not (re)seeded with fit's seed", loc(cfp.fi, cfp.fi.node))
         rs = [n for n in ast.walk(fit.fi.node) if isinstance(n, ast.Call) and isinstance(n.func, ast.Attribute) and n.func.attr == "_set_seed"]
         for c in rs:
-            names = {norm(x) for x in ast.walk(c.args[0])} if c.args else set()
-            res.check("self.seed" in names and any(x.startswith("self.prng.") for x in names), "R-SEEDED", fit.fi.short, norm(c), "reseed", "the per-realisation re-seeding does not derive from the seeded stream (self.seed + self.prng.randint(...))", loc(fit.fi, c))
+            arg_i = fit.inline(c.args[0]) if c.args else None
+            names = {norm(x) for x in ast.walk(arg_i)} if arg_i is not None else set()
+            good = "self.seed" in names and any(x.startswith("self.prng.") for x in names)
+            # positively unrelated to the seeded stream: a constant, the clock, the global generator
+            bad = arg_i is None or isinstance(arg_i, ast.Constant) or any(x.startswith(("time.", "np.random.", "numpy.random.", "random.")) for x in names)
+            res.add("R-SEEDED", fit.fi.short, norm(c), "reseed", "ok" if good else ("violation" if bad else "unknown"), "" if good else "the per-realisation re-seeding does not derive from the seeded stream (self.seed + self.prng.randint(...))", loc(fit.fi, c))
         for cls, entry in (("HypergraphMT", "HypergraphMT.fit"), ("HySC", "HySC.fit")):
             e = ctx.require(entry)
             clo = R.closure(ctx, e)
@@ -137,6 +141,13 @@ def run(ctx):
                 # a count taken from the dummy matrix itself (count_nonzero / shape of the summed array) is the summed population
                 st = "ok" if rs == {rc} else "violation"
                 res.add("I-POP", pf, norm(c), "same-rows", st, "" if st == "ok" else f"degree 1 sums the dummy memberships over {'the non-isolated' if True in rs else 'all'} rows, but the higher degrees count {'only the non-isolated' if rc else 'all'} rows (`{norm(pv.inline(c.args[0]))[:80]}`): with isolated nodes the polynomials start inconsistent and the offset is carried through every incremental update", loc(pv.fi, c))
+    with res.guard("N-RECUR"):
+        from ..lints import check_self_shift_recurrence
+
+        res.rules["N-RECUR"] = "the degree recursions of the psi matrices run degree by degree (never as one slice assignment that reads the rows it is about to write)"
+        for name_, mfi in sorted(ctx.methods("HypergraphMT").items()):
+            if "psi" in name_.lower():
+                check_self_shift_recurrence(ctx, res, mfi)
     with res.guard("I-ROWS"):
         stores = [n for n in walk_no_nested(ak.fi.node) if isinstance(n, ast.Assign) and isinstance(n.targets[0], ast.Subscript) and norm(n.targets[0].value) == "X_pred"]
         if not stores:
@@ -145,13 +156,36 @@ def run(ctx):
             sl = s.targets[0].slice
             row, col = (sl.elts + [None, None])[:2] if isinstance(sl, ast.Tuple) else (sl, None)
             lp = ak.enclosing(s, (ast.For,))
-            ok = False
-            if lp is not None and isinstance(lp.iter, ast.Call) and norm(lp.iter.func) == "enumerate" and norm(lp.iter.args[0]) == "self.non_isolates" and isinstance(lp.target, ast.Tuple):
-                pos, node = norm(lp.target.elts[0]), norm(lp.target.elts[1])
-                ok = norm(row) == node and col is not None and norm(col) == f"y_pred[{pos}]"
-            elif lp is None:
-                ok = norm(row) == "self.non_isolates" and col is not None and norm(col) == "y_pred"
-            res.check(ok, "I-ROWS", ak.fi.short, norm(s), "rows=non_isolates", "cluster labels are not written to the rows of the non-isolated nodes in their own order: isolated nodes get a community and non-isolated ones lose theirs", loc(ak.fi, s))
+            why = "cluster labels are not written to the rows of the non-isolated nodes in their own order: isolated nodes get a community and non-isolated ones lose theirs"
+            st_ = "unknown"
+            coli = (ak.resolve(col) if isinstance(col, ast.Name) else col) if col is not None else None  # `cluster = y_pred[idx]`
+            if lp is None:
+                st_ = "ok" if norm(row) == "self.non_isolates" and col is not None and norm(col) == "y_pred" else ("violation" if norm(row) in ("self.isolates",) or isinstance(row, ast.Slice) or (isinstance(ak.inline(row), ast.Call) and norm(ak.inline(row).func) in ("np.arange", "numpy.arange", "range", "list")) else "unknown")
+            else:
+                it = lp.iter
+                node = pos = partner = None
+                if isinstance(it, ast.Call) and norm(it.func) == "enumerate" and it.args and isinstance(lp.target, ast.Tuple):
+                    src, pos, node = norm(it.args[0]), norm(lp.target.elts[0]), norm(lp.target.elts[1])
+                elif isinstance(it, ast.Call) and norm(it.func) == "zip" and len(it.args) == 2 and isinstance(lp.target, ast.Tuple):
+                    src, node, partner = norm(it.args[0]), norm(lp.target.elts[0]), (norm(lp.target.elts[1]), norm(it.args[1]))
+                else:
+                    src, node = norm(it), norm(lp.target)
+                    # a manual position counter: initialised to 0 before the loop, advanced by one per iteration
+                    for x in lp.body:
+                        if isinstance(x, ast.AugAssign) and isinstance(x.target, ast.Name) and isinstance(x.op, ast.Add) and isinstance(x.value, ast.Constant) and x.value.value == 1:
+                            init = [d for d in walk_no_nested(ak.fi.node) if isinstance(d, ast.Assign) and isinstance(d.targets[0], ast.Name) and d.targets[0].id == x.target.id]
+                            if len(init) == 1 and isinstance(init[0].value, ast.Constant) and init[0].value.value == 0 and init[0].lineno < lp.lineno:
+                                pos = x.target.id
+                row_ok = norm(row) == node and src == "self.non_isolates"
+                col_txt = norm(coli) if coli is not None else None
+                col_ok = (pos is not None and col_txt == f"y_pred[{pos}]") or (partner is not None and col_txt == partner[0] and partner[1] == "y_pred")
+                if row_ok and col_ok:
+                    st_ = "ok"
+                elif src in ("self.isolates", "range(self.N)") or (col_txt == f"y_pred[{node}]" and node is not None) or (pos is not None and norm(row) == pos):
+                    # rows of the wrong population, or the label looked up by the ROW index instead of the position among the
+                    # non-isolated nodes
+                    st_ = "violation"
+            res.add("I-ROWS", ak.fi.short, norm(s), "rows=non_isolates", st_, "" if st_ == "ok" else (why if st_ == "violation" else "how rows and labels are paired was not recognised"), loc(ak.fi, s))
     # ---- I-ISOL
     with res.guard("I-ISOL"):
         for d in ("HySC._init_data", "HypergraphMT._check_fit_params"):
